@@ -138,7 +138,7 @@ def experiment(seed):
     rng = random.Random(seed)
     nrng = np.random.default_rng(seed)
     old = tempfile.tempdir
-    root = pathlib.Path(tempfile.mkdtemp(prefix="eko-verif-c36-"))
+    root = pathlib.Path(tempfile.mkdtemp(prefix="verif-eko-c36-"))
     (root / "tmp").mkdir()
     tempfile.tempdir = str(root / "tmp")
     rec = {"seed": seed, "forms": []}
